@@ -150,10 +150,10 @@ Definition xvar (a : xassign) : var :=
 Definition xcond (a : xassign) : cond :=
   match a with XPoly g | XDist g => ga_cond g | XFunc _ _ _ c _ => c end.
 
-(* the loop of _conditions_to_arithm, literally: the first test keeps any assignment whose
-   arithmetised condition is 1; then ONE if for PolyAssignment, ONE if for DistAssignment and
-   nothing else *)
-Definition c2ax (T : tenv) (u : var) (a : xassign) : option (list xassign) :=
+(* the loop of _conditions_to_arithm as it was before /repo 0c1450d, literally: the first test keeps
+   any assignment whose arithmetised condition is 1; then ONE if for PolyAssignment, ONE if for
+   DistAssignment and nothing else *)
+Definition c2ax_old (T : tenv) (u : var) (a : xassign) : option (list xassign) :=
   match arith T (xcond a) with
   | None => None
   | Some p =>
@@ -171,6 +171,22 @@ Definition c2ax (T : tenv) (u : var) (a : xassign) : option (list xassign) :=
            | XFunc _ _ _ _ _ => Some []
            end
   end.
+Fixpoint c2ax_old_list (T : tenv) (u : var) (l : list xassign) : option (list xassign) :=
+  match l with
+  | [] => Some []
+  | a :: l' => match c2ax_old T u a, c2ax_old_list T u l' with Some r, Some r' => Some (r ++ r') | _, _ => None end
+  end.
+
+(* the loop since /repo 0c1450d: if Poly ... elif Dist ... else: keep the assignment unchanged *)
+Definition c2ax (T : tenv) (u : var) (a : xassign) : option (list xassign) :=
+  match a with
+  | XFunc _ _ _ _ _ =>
+      match arith T (xcond a) with
+      | None => None
+      | Some p => if is_one p then c2ax_old T u a else Some [a]
+      end
+  | _ => c2ax_old T u a
+  end.
 Fixpoint c2ax_list (T : tenv) (u : var) (l : list xassign) : option (list xassign) :=
   match l with
   | [] => Some []
@@ -184,21 +200,21 @@ Definition drop_prog : list xassign :=
   [ XDist {| ga_var := "f"; ga_cond := CTrue; ga_default := "f"; ga_rhs := RDraw (DBern (EConst (mkq 1 2))) |};
     XFunc "y" "Exp" "x" (CAtom (EVar "f") Ceq (EConst (mkq 1 1))) "y" ].
 
-Theorem cond2arithm_drops_functional_refuted :
-  ~ (forall T u l l', c2ax_list T u l = Some l' -> forall x, In x (map xvar l) -> In x (map xvar l')).
+Theorem cond2arithm_drops_functional_old_rule_refuted :
+  ~ (forall T u l l', c2ax_old_list T u l = Some l' -> forall x, In x (map xvar l) -> In x (map xvar l')).
 Proof.
   intros H.
-  assert (Hc : c2ax_list drop_T "_u0" drop_prog = Some [XDist {| ga_var := "f"; ga_cond := CTrue; ga_default := "f"; ga_rhs := RDraw (DBern (EConst (mkq 1 2))) |}]).
+  assert (Hc : c2ax_old_list drop_T "_u0" drop_prog = Some [XDist {| ga_var := "f"; ga_cond := CTrue; ga_default := "f"; ga_rhs := RDraw (DBern (EConst (mkq 1 2))) |}]).
   { vm_compute. reflexivity. }
   specialize (H drop_T "_u0" drop_prog _ Hc "y"). cbn in H.
   destruct H as [H|[]]; [right; left; reflexivity | discriminate H].
 Qed.
 
-(* ... whereas polynomial and draw assignments are always re-emitted *)
+(* ... whereas polynomial and draw assignments were always re-emitted *)
 Theorem cond2arithm_keeps_poly_and_draws : forall T u a r,
-  (match a with XFunc _ _ _ _ _ => False | _ => True end) -> c2ax T u a = Some r -> In (xvar a) (map xvar r).
+  (match a with XFunc _ _ _ _ _ => False | _ => True end) -> c2ax_old T u a = Some r -> In (xvar a) (map xvar r).
 Proof.
-  intros T u a r Ha H. unfold c2ax in H.
+  intros T u a r Ha H. unfold c2ax_old in H.
   destruct (arith T (xcond a)) as [p|]; [|discriminate].
   destruct (is_one p) eqn:E1.
   - injection H as <-. destruct a; cbn; auto.
@@ -210,6 +226,31 @@ Proof.
       destruct (is_one q); [discriminate|].
       destruct (ga_rhs g); [discriminate|]. injection H as <-. cbn. auto.
 Qed.
+
+(* the repaired chain re-emits EVERY assignment, for every program *)
+Theorem cond2arithm_keeps_every_assignment : forall T u a r, c2ax T u a = Some r -> In (xvar a) (map xvar r).
+Proof.
+  intros T u a r H. destruct a as [g|g|x f y c d].
+  - apply (cond2arithm_keeps_poly_and_draws T u (XPoly g) r I H).
+  - apply (cond2arithm_keeps_poly_and_draws T u (XDist g) r I H).
+  - unfold c2ax in H. cbn [xcond] in H. destruct (arith T c) as [p|] eqn:Ea; [|discriminate].
+    destruct (is_one p) eqn:E1.
+    + unfold c2ax_old in H. cbn [xcond] in H. rewrite Ea, E1 in H. injection H as <-. cbn. auto.
+    + injection H as <-. cbn. auto.
+Qed.
+Theorem cond2arithm_list_keeps_every_variable : forall T u l l',
+  c2ax_list T u l = Some l' -> forall x, In x (map xvar l) -> In x (map xvar l').
+Proof.
+  intros T u; induction l as [|a l IH]; intros l' H x Hx; [destruct Hx|].
+  cbn [c2ax_list] in H. destruct (c2ax T u a) as [r|] eqn:Ea; [|discriminate].
+  destruct (c2ax_list T u l) as [r'|] eqn:El; [|discriminate]. injection H as <-.
+  rewrite map_app. apply in_or_app. destruct Hx as [<-|Hx].
+  - left. apply (cond2arithm_keeps_every_assignment T u a r Ea).
+  - right. apply (IH r' eq_refl x Hx).
+Qed.
+(* the old witness under the repaired chain: y = Exp(x) | f == 1 : y is kept *)
+Example drop_prog_kept : match c2ax_list drop_T "_u0" drop_prog with Some l => map xvar l | None => [] end = ["f"; "y"].
+Proof. vm_compute. reflexivity. Qed.
 Close Scope string_scope.
 
 (* ---- exactness flag (utils/expressions.py) ------------------------------------------------ *)
